@@ -28,8 +28,35 @@ def gen(ctx, rng, per_solver):
                 span = rng.uniform(0.2, 1.5)
                 dtmin = dtmax * 10.0 ** (-rng.randint(3, 8))
                 tol = 10.0 ** (-rng.uniform(3, 9))
+            if rng.random() < 0.3:
+                # a forcing that switches on sharply near the end: the solution rests, then the right-hand side at the
+                # new time differs from the one at the old time by far more than the tolerance
+                rhs = ivpgen.add_switch_on(rng, rhs, t0 + span)
+                tol = max(tol, 1e-6)
             cases.append(ivpgen.base_case(0, solver, dim, t0, t0 + span, dtmin, dtmax, tol, rhs, y0,
-                                          max_items=300, budget=300000))
+                                          max_items=300, budget=300000, min_first=rng.random() < 0.5))
+        for _ in range(0 if solver == "euler" else max(8, per_solver // 3)):
+            # ... and a solution that is at rest until the forcing switches on (no other forcing, zero initial state, steps
+            # at the maximum length): the implicit equation's residual at the old state is below the tolerance at the old
+            # time and far above it at the new one
+            dim = rng.randint(1, 3)
+            rhs, y0 = ivpgen.generic_system(rng, dim)
+            z = ivpgen.fp(0.0)
+            rhs["delta"] = [z] * dim
+            rhs["eps"] = [z] * dim
+            y0 = [ivpgen.cpair(0.0)] * dim
+            t0 = rng.choice([0.0, rng.uniform(-1, 1)])
+            dtmax = rng.uniform(0.05, 0.2)
+            span = dtmax * rng.uniform(8, 30)
+            kappa = rng.uniform(3.0, 8.0) / dtmax
+            tol = 10.0 ** (-rng.uniform(3, 5))
+            rhs = ivpgen.add_switch_on(rng, rhs, t0 + span)
+            for i in range(dim):
+                if rhs["eta"][i] != z:
+                    rhs["kappa"][i] = ivpgen.fp(kappa)
+                    rhs["tc"][i] = ivpgen.fp(t0 + span - rng.uniform(0.5, 3.0) / kappa)
+            cases.append(ivpgen.base_case(0, solver, dim, t0, t0 + span, dtmax * 1e-6, dtmax, tol, rhs, y0,
+                                          max_items=300, budget=300000, min_first=False))
     return cases
 
 
